@@ -4,7 +4,7 @@ d="$(cd "$1" && pwd)"; shift
 git -C /repo apply "$d/patch.diff" || { echo "patch failed"; exit 3; }
 for pid in "$@"; do
   out=$(cd /verif && timeout 3000 ./check "$pid" 2>&1); rc=$?
-  echo "== $pid rc=$rc: $(echo "$out" | grep -E 'VIOLATION|KNOWN' | head -3)"
+  echo "== $pid rc=$rc: $(echo "$out" | grep -E '^VIOLATION' | head -3) $(echo "$out" | grep -c '^KNOWN-FINDING') known-finding line(s)"
 done
 git -C /repo checkout -- .
 # the finite tables were regenerated from the patched tree: bring them back to the clean tree
